@@ -83,6 +83,31 @@ def h_single(B, cls="EOF", n=4, p=2, k=2, m=3, labels="disjoint", flags=None, ro
             B.eq(f"transform(X_fit[{rows}])==scores()[{rows}]", ts, sc.isel({sdim: rows}))
 
 
+def h_missing_new(B, n=4, p=2, k=2, labels=(100, 100, 101), missing=(1,)):
+    """new data with (possibly repeated) labels in which some samples are entirely missing: every other sample
+    must come back under its own label with the value it gets when transformed alone"""
+    X = da2d(B, "x", n, p)
+    model = M.single("EOF", n_modes=k, solver="full").fit(X, "time")
+    m = len(labels)
+    mask = np.zeros((m, p), dtype=bool)
+    mask[list(missing), :] = True
+    Xn = da2d(B, "xn", m, p, scoords=list(labels), nan_mask=mask)
+    B.covers("Sanitizer.transform (all-NaN new samples)")
+    tr = B.completes("transform(new data with missing samples) runs", lambda: model.transform(Xn))
+    if tr is None:
+        return
+    keep = [i for i in range(m) if i not in missing]
+    got = list(tr["time"].values)
+    d = tr.transpose("time", "mode").data
+    nanrow = [bool(np.all(np.isnan(d[i]))) for i in range(len(got))]
+    got_valid = [g for g, isn in zip(got, nanrow) if not isn]
+    B.check("every non-missing new sample is returned under its own label", got_valid == [labels[i] for i in keep], f"labels of non-NaN rows {got_valid}, expected {[labels[i] for i in keep]}")
+    if got_valid == [labels[i] for i in keep]:
+        rows = [i for i, isn in enumerate(nanrow) if not isn]
+        alone = xr.concat([model.transform(Xn.isel(time=[i])) for i in keep], dim="time")
+        B.eq("non-missing samples: same scores as when transformed alone", tr.isel(time=rows), alone)
+
+
 def h_multiindex(B, cls="EOF", p=2, k=2):
     """two sample dimensions: fitted on (t1,t2) grid, new data on another grid"""
     X, dim, fdims = M.make_input(B, "multiindex", 4, p, False, {})
@@ -160,6 +185,9 @@ def configs(tier):
     add("h_single", "EOF|normalized|disjoint", cls="EOF", labels="disjoint", normalized=True)
     add("h_single", "EOF|m1|disjoint", cls="EOF", labels="disjoint", m=1)
     add("h_multiindex", "EOF|two sample dims")
+    add("h_missing_new", "EOF|new data: repeated labels + one missing sample", labels=(100, 100, 101), missing=(1,))
+    add("h_missing_new", "EOF|new data: unique labels + first sample missing", labels=(100, 101, 102), missing=(0,))
+    add("h_missing_new", "EOF|new data: repeated labels + missing duplicate last", labels=(5, 6, 6), missing=(2,))
     for power in (1, 2):
         add("h_single", f"EOFRotator|power{power}|disjoint", cls="EOF", labels="disjoint", p=3, rot={"n_modes": 2, "power": power})
     if tier == "thorough":
